@@ -4,8 +4,10 @@
 d=$(realpath "$1"); shift
 prop=$(python3 -c "import json,sys; print(json.load(open('$d/meta.json'))['property'])")
 cd /repo || exit 2
-if ! git apply --check "$d/patch.diff" 2>/dev/null; then echo "SEED $(basename $d): patch does not apply to the current tree"; exit 3; fi
-git apply "$d/patch.diff"
+pf="$d/patch.diff"
+if ! git apply --check "$pf" 2>/dev/null; then pf="$d/patch.rebased.diff"; fi   # rebased onto the tree with the fix: commits
+if ! git apply --check "$pf" 2>/dev/null; then echo "SEED $(basename $d): patch does not apply to the current tree"; exit 3; fi
+git apply "$pf"
 cd /verif
 for p in $prop "$@"; do
   out=$(./vx check $p 2>&1); code=$?
